@@ -36,7 +36,7 @@ from ..drivers import docutils_doctree, parse_warnings  # noqa: E402
 POOL = [
     ("a", "a"), ("A", "A"), ("a-1", "a-1"), ("a 1", "a 1"), ("b", "b"), ("a!", "a!"), ("`a`", "a"), ("*a* b", "a b"),
     ("a_b", "a_b"), ("é", "é"), ("中", "中"), ("-a", "-a"), ("![i](u) a", " a"), ("<b>x</b> a", "x a"),
-    ("a  b", "a  b"), ("a-1-1", "a-1-1"), ("[a](http://u) `b`", "a b"), ("a.b, c", "a.b, c"), ("!!!", "!!!"), ("a\nb", "ab"), ("a  \nc", "ac"),
+    ("a  b", "a  b"), ("a-1-1", "a-1-1"), ("[a](http://u) `b`", "a b"), ("a.b, c", "a.b, c"), ("!!!", "!!!"), ("a\nb", "ab"), ("a  \nc", "ac"), ("a {abbr}`x (y)` b", "a  b"), ("n[^f]", "n"),
 ]
 
 
